@@ -124,7 +124,11 @@ def run_dispatch(ctx, case, faults=False, through_runner=True):
                          data=json.dumps(['g0', 'g1']).encode('utf-8'))
         f.create_dataset('all_query_markers', data=np.array([0]))
     nproc = ctx.int('n_processors', 1, case.get('max_proc', 3))
-    chunk = ctx.int('chunk_size', 1, nrows + 1)
+    if case.get('chunk_choices'):
+        cc = case['chunk_choices']
+        chunk = cc[ctx.choice('chunk_choice', len(cc))]
+    else:
+        chunk = ctx.int('chunk_size', 1, nrows + 1)
     buffer_mode = case.get('buffer', False)
     mpmodel.SCHED.reset(K=case.get('K', 2), faults=faults,
                         fault_modes=case.get('fault_modes'),
@@ -171,7 +175,7 @@ def run_dispatch(ctx, case, faults=False, through_runner=True):
                 1, rng, n_assignments=2, tmp_dir=env.dir,
                 results_output_path=env.dir if buffer_mode else None)
         res['out'], res['raised'] = out, None
-    except RuntimeError as e:
+    except Exception as e:
         res['out'], res['raised'] = None, e
     res['procs'] = list(mpmodel.SCHED.procs)
     res['order'] = list(mpmodel.SCHED.order)
